@@ -98,7 +98,8 @@ def nearmiss_case(draw, n_inputs=3):
                                  "and", "or", "void", "float-const", "global", "affix", "two-returns", "unused-param-types",
                                  "return-int-as-float", "return-float-as-int", "huge-constant", "huge-constant-uint",
                                  "huge-constant-compare", "huge-constant-divide", "ne-float", "le-float", "ge-float", "mod-float",
-                                 "cast-int-to-uint", "cast-uint-to-int", "mixed-int-uint", "cast-float-to-int", "cast-int-to-float"]))
+                                 "cast-int-to-uint", "cast-uint-to-int", "mixed-int-uint", "cast-float-to-int", "cast-int-to-float",
+                                 "discarded-expression", "discarded-expression-void", "discarded-parameter-void"]))
     a, b = M.Var("a", INT), M.Var("b", INT)
     x = M.Var("x", FLOAT)
     params = [(INT, "a"), (INT, "b"), (FLOAT, "x")]
@@ -174,6 +175,16 @@ def nearmiss_case(draw, n_inputs=3):
             ret = FLOAT
             e = M.Construct(FLOAT, [a])
         body = [M.Return(e)]
+    elif kind in ("discarded-expression", "discarded-expression-void", "discarded-parameter-void"):
+        # an expression statement whose value nobody reads
+        e = a if kind == "discarded-parameter-void" else M.Bin(draw(st.sampled_from(["*", "+", "<"])), a, b, ty=INT)
+        body = [M.ExprStmt(e)] * draw(st.integers(1, 2))
+        if kind == "discarded-expression":
+            body = body + [M.Return(M.Bin("-", a, b, ty=INT))]
+        else:
+            ret = M.VOID
+            if draw(st.booleans()):
+                body = body + [M.Return(None)]
     elif kind == "global":
         globs = [(INT, "g")]
         body = [M.Return(M.Bin("+", a, M.Var("g", INT), ty=INT))]
